@@ -31,6 +31,9 @@ type Symb struct {
 	// sparse: leaf hashes that are zero except for one byte among bytes 16..23 (no information in
 	// the first 12 bytes: the pointer forest, which keys its index by them, does not take part)
 	sparse bool
+	// xorzero: leaf values whose four 64-bit words cancel out (a|a|b|b): ordinary non-zero values
+	// that a word-wise emptiness or equality test built on XOR would mistake
+	xorzero bool
 }
 
 func NewSymb() *Symb {
@@ -86,6 +89,10 @@ func (s *Symb) h(term string) Hash {
 		if s.sparse {
 			out = Hash{}
 			out[16+i%8] = byte(1 + i/8)
+		}
+		if s.xorzero {
+			copy(out[8:16], out[0:8])
+			copy(out[24:32], out[16:24])
 		}
 	case term[0] == 'B':
 		// a hash that is zero except for one byte (B<i>: byte i is 1): values whose
